@@ -62,7 +62,12 @@ using namespace ASAM::CMP;
 #ifndef NULLP
 #define NULLP 0  // 1: an empty final data block is passed as (nullptr, 0)
 #endif
+#ifndef DMAX
 #define DMAX 72
+#endif
+#ifndef MSGMAX
+#define MSGMAX 160   // largest built payload the self-validation path copies
+#endif
 #define DATA_PTR ((NULLP && N == 0) ? static_cast<const uint8_t*>(nullptr) : g_data)
 
 static uint8_t g_data[DMAX], g_prev[DMAX], g_vend[DMAX], g_pvend[DMAX];
@@ -72,14 +77,14 @@ template <class T>
 static void selfValid(const T& p, uint8_t msgType, uint8_t rawType)
 {
     vp_assert(T::isValidPayload(p.getRawPayload(), p.getLength()), "C13: the class's own validity check accepts the built payload");
-    static uint8_t msg[16 + 160];
+    static uint8_t msg[16 + MSGMAX];
     const size_t len = p.getLength();
-    vp_assert(len <= 160, "harness bound");
+    vp_assert(len <= MSGMAX, "harness bound");
     for (unsigned i = 0; i < 16; ++i)
         msg[i] = 0;
     msg[13] = rawType;
     vp_put16(msg + 14, static_cast<uint16_t>(len));
-    for (unsigned i = 0; i < 160; ++i)
+    for (unsigned i = 0; i < MSGMAX; ++i)
         if (i < len)
             msg[16 + i] = p.getRawPayload()[i];
     vp_assert(Packet::isValidPacket(msg, 16 + len), "C13: the message-level validity check accepts a message carrying the built payload");
@@ -93,7 +98,7 @@ static bool sameRaw(const Payload& a, const Payload& b)
     if (a.getLength() != b.getLength())
         return false;
     bool eq = true;
-    for (unsigned i = 0; i < 160; ++i)
+    for (unsigned i = 0; i < MSGMAX; ++i)
         if (i < a.getLength())
             eq = eq && a.getRawPayload()[i] == b.getRawPayload()[i];
     return eq;
@@ -346,6 +351,10 @@ VP_HARNESS(h_build)
     {
         const unsigned fl = (SL[k] + 1 + 1) & ~1u;
         vp_assert(vp_be16(raw + pos) == fl, "C13: string length field counts the terminating NUL and is rounded up to even");
+        {
+            const std::string_view sv = k == 0 ? a->getDeviceDescription() : k == 1 ? a->getSerialNumber() : k == 2 ? a->getHardwareVersion() : a->getSoftwareVersion();
+            vp_assert(sv.data() == reinterpret_cast<const char*>(raw + pos + 2), "C12: a string field is read from the bytes behind its big-endian 16-bit length");
+        }
         for (unsigned i = 0; i < 8; ++i)
             if (i < SL[k])
                 vp_assert(raw[pos + 2 + i] == static_cast<uint8_t>(g_str[k][i]), "C13: string bytes stored in order");
@@ -357,6 +366,7 @@ VP_HARNESS(h_build)
         pos += 2 + fl;
     }
     vp_assert(vp_be16(raw + pos) == V, "C13: vendor data length field");
+    vp_assert(a->getVendorDataLength() == vp_be16(raw + pos), "C12: the vendor data length is read back big-endian from the two bytes that hold it");
     vp_assert(a->getLength() == pos + 2 + V, "C13: payload ends after the vendor data");
     selfValid(*a, 3, 1);
     CaptureModulePayload* b = new CaptureModulePayload;
